@@ -2,6 +2,7 @@
 purely lexical): CR, LF, EL2, CUU n, cursor show/hide, BEL, SGR / OSC-8 (dropped here), labelled
 text runs, blanks; any other escape sequence is an explicit 'unk' operation that no spec accepts."""
 import re
+import unicodedata
 
 _TOK = re.compile(r"\x1b\[(\?25[lh]|[0-9;]*[A-Za-z])|\x1b\]8;[^\x1b\x07]*(?:\x1b\\|\x07)|\x1b.|\r|\n|\x07|[^\x1b\r\n\x07]+", re.S)
 _LABEL = re.compile(r"([PF])(\d+)\.(\d)")
@@ -9,6 +10,16 @@ _LABEL = re.compile(r"([PF])(\d+)\.(\d)")
 
 def label_id(kind, k, i):
     return (1000000 if kind == "P" else 2000000) + int(k) * 10 + int(i)
+
+
+def cells(t):
+    """cell count of a run of text on a terminal (East Asian wide / fullwidth = 2, combining / format = 0)"""
+    n = 0
+    for ch in t:
+        if unicodedata.combining(ch) or unicodedata.category(ch) in ("Mn", "Me", "Cf"):
+            continue
+        n += 2 if unicodedata.east_asian_width(ch) in ("W", "F") else 1
+    return n
 
 
 def lex(s):
@@ -41,13 +52,14 @@ def lex(s):
             ops.append(["unk", 0])
         else:
             labels = _LABEL.findall(t)
+            w = cells(t)                  # the run's cells ride on its first operation (terminal auto-wrap, Screen.tla)
             if labels:
-                for kind, k, i in labels:
-                    ops.append(["t", label_id(kind, k, i)])
+                for n, (kind, k, i) in enumerate(labels):
+                    ops.append(["t", label_id(kind, k, i), w if n == 0 else 0])
             elif t.strip() == "...":
-                ops.append(["t", 3])
+                ops.append(["t", 3, w])
             elif t.strip() == "":
-                ops.append(["sp", 0])
+                ops.append(["sp", 0, w])
             else:
-                ops.append(["sp", 0])     # unlabelled visible text (spinner frames, times, paths)
+                ops.append(["sp", 0, w])  # unlabelled visible text (spinner frames, times, paths)
     return ops
